@@ -255,7 +255,11 @@ SolveFlags(s) ==
 NowFlags(s) ==
   (IF \E c \in Cons(s) : s.cpol[c] = 0 /\ \E v \in Enabled(s) : OnC(s, v, c) THEN {"fatpipe"} ELSE {})
   \cup (IF \E c \in Cons(s) : c \notin s.act /\ \E v \in Enabled(s) : W(s, v, c) > 0 THEN {"inactive"} ELSE {})
-  \cup (IF (\E v \in Consuming(s) : s.vb[v] > 0) /\ (\E u \in Consuming(s) : s.pen[u] # 1) THEN {"penbound"} ELSE {})
+  \* BMF: a sharing penalty other than 1 together with a per-variable limit (a bound, or a consumed FATPIPE constraint)
+  \cup (IF /\ \E u \in Consuming(s) : s.pen[u] # 1
+           /\ \/ \E v \in Consuming(s) : s.vb[v] > 0
+              \/ \E c \in Cons(s) : s.cpol[c] = 0 /\ \E v \in Enabled(s) : W(s, v, c) > 0
+        THEN {"penbound"} ELSE {})
 
 Solve(s) ==
   { [s EXCEPT !.val = MaxMin(s), !.flags = @ \cup SolveFlags(s),
